@@ -51,7 +51,20 @@ Definition chk_gc (c : gc_case) : bool :=
 def canon(c):
     if c is None:
         return None
-    return tuple(sorted((k, repr(v.item() if hasattr(v, "item") else v)) for k, v in c.items()))
+    def val(v):
+        v = v.item() if hasattr(v, "item") else v
+        return v if isinstance(v, float) else repr(v)
+    return tuple(sorted((k, val(v)) for k, v in c.items()))
+
+
+def close(x, y, rel=1e-9):
+    """structural equality; floats up to round-off (a restored GP searcher re-encodes its surrogate parameters,
+    which changes last bits of later suggestions)"""
+    if isinstance(x, float) and isinstance(y, float):
+        return x == y or abs(x - y) <= rel * max(abs(x), abs(y))
+    if isinstance(x, (tuple, list)) and isinstance(y, (tuple, list)):
+        return len(x) == len(y) and all(close(a, b, rel) for a, b in zip(x, y))
+    return x == y
 
 
 def first_diff(ref, got):
@@ -421,7 +434,7 @@ def run_gp_twin(ctx, case):
 def params_probe(sch):
     """surrogate model parameters (public searcher.model_parameters()): frozen / refitted alike in original and clone"""
     try:
-        return repr(sorted((k, float(v)) for k, v in sch.searcher.model_parameters().items()))
+        return tuple(sorted((k, float(v)) for k, v in sch.searcher.model_parameters().items()))
     except Exception as e:  # noqa
         return "raised " + type(e).__name__
 
@@ -480,8 +493,11 @@ def run_gp_twin_at(ctx, case):
         for op in rest:
             pc.step(op)
     for who, p in (("clone", pb), ("second_clone", pc)):
-        if p.trace != pa.trace:
-            k, x, y = first_diff(pa.trace, p.trace)
+        if not close(p.trace, pa.trace):
+            k = next((i for i, (x, y) in enumerate(zip(pa.trace, p.trace)) if not close(x, y)),
+                     min(len(pa.trace), len(p.trace)))
+            x = pa.trace[k] if k < len(pa.trace) else None
+            y = p.trace[k] if k < len(p.trace) else None
             ev = "clone_answers_none_or_other_config_in_random_phase" if case.get("directed") else "continuation_diverged"
             so = case.get("search_options") or {}
             stateful = bool(so.get("opt_skip_period", 1) > 1 or so.get("opt_skip_num_max_resource"))
